@@ -538,14 +538,12 @@ theorem C09_lapse_dry_limit (e_eq : ℝ → ℝ) (T : ℝ) (_hT : 0 < T) :
     (C.earth_standard_gravity / C.isobaric_mass_heat_capacity)
   simpa using this
 
-/-! ## Not proved (stated, validated numerically by the sweep of the C09 check only)
+/-! ## Saturation-pressure inequalities
 
-* `C09_e_water_strictMono_partial`: `StrictMonoOn e_eq_water_mk (Set.Icc 100 400)` — the
-  `tanh` term needs interval bounds on specific decimals; no interval-arithmetic tactic is
-  installed.  NOT PROVED.
-* `C09_ice_le_water_partial`: `∀ T ∈ [100, T_t], e_eq_ice_mk T ≤ e_eq_water_mk T` with
-  equality to 1e-6 relative at `T_t` — numeric facts about specific decimals.  NOT PROVED.
-  `C09_mixed_between` is therefore conditional on `ice ≤ water` at the given `T`.
+Strict monotonicity of `e_eq_water_mk` on [100 K, 400 K], `ice ≤ liquid` below the triple point
+(literally up to `T_t − 10 µK`; to 1e-6 relative up to `T_t`, where the Murphy–Koop formulas
+cross: `e_w(T_t) < e_i(T_t)`), the 1e-6 agreement at `T_t` and the unconditional forms of
+`C09_mixed_between` are proved in `Proofs/Props/C09Sat.lean` (lemmas: `Proofs/Lemmas/Saturation.lean`).
 -/
 
 /-! ## Non-vacuity: the hypotheses are satisfiable at physically typical values -/
